@@ -626,11 +626,14 @@ func (l *Lowerer) builtin(name string, ce *ast.CallExpr) ([]*Term, []types.Type)
 		case *types.Array:
 			return []*Term{IntLit(u.Len())}, []types.Type{tInt}
 		case *types.Map:
-			_, _, card := l.mapVars(u)
+			dom, _, card := l.mapVars(u)
 			c := Select(card, v)
 			r := Ite(Eq(v, IntLit(0)), IntLit(0), c)
 			if !l.spec {
 				l.assume(Le(IntLit(0), c))
+				// a map has no entries exactly when its key set is empty
+				ks := arraySort(l.p.sortOf(u.Key()), "Bool")
+				l.assume(Eq(Eq(c, IntLit(0)), Eq(Select(dom, v), App("(as const "+ks+")", ks, tFalse))))
 			}
 			return []*Term{r}, []types.Type{tInt}
 		case *types.Chan:
@@ -1150,6 +1153,32 @@ func (l *Lowerer) callFunc1(callee *types.Func, recv *Term, recvTyp types.Type, 
 	l.callSiteClauses(callee, recv, recvTyp, args, atys, ce)
 	if fi == nil {
 		return l.externalCall(callee, recv, recvTyp, args, atys, ce), resTypes
+	}
+	// f(a, b, c) for a variadic f(x, rest ...T): the callee sees the slice []T{b, c} (nil when empty)
+	if sig.Variadic() && !ce.Ellipsis.IsValid() {
+		np := sig.Params().Len()
+		if len(args) >= np-1 {
+			st := sig.Params().At(np - 1).Type()
+			ss := l.p.sortOf(st)
+			rest := args[np-1:]
+			r := l.p.reg
+			var packed *Term
+			if len(rest) == 0 {
+				packed = l.p.zeroOf(st)
+			} else {
+				es := l.p.sortOf(st.(*types.Slice).Elem())
+				an := l.tmp(arraySort("Int", es))
+				l.havoc(an, arraySort("Int", es))
+				arr := V(an, arraySort("Int", es))
+				for k, a := range rest {
+					l.assume(Eq(Select(arr, IntLit(int64(k))), a))
+				}
+				n := IntLit(int64(len(rest)))
+				packed = r.sMk(ss, arr, IntLit(0), n, n, tFalse)
+			}
+			args = append(append([]*Term{}, args[:np-1]...), packed)
+			atys = append(append([]types.Type{}, atys[:np-1]...), st)
+		}
 	}
 	// interface method: dispatch on the contract of the interface, or of the concrete static type
 	key := fi.Key
